@@ -167,24 +167,36 @@ def conforms(R, c, t):
     return t == "OBJECT" or (c is not None and c in R[t])
 
 
-def expected(case):
-    """The property statement applied to the abstract case: (ok, targets) or (err, index, kind, name, target)."""
+def verdicts(case):
+    """The property statement applied to every reference of the abstract case on its own:
+    ("ok", target) | ("unknown",) | ("notunique",)"""
     R = reach(case["table"])
     objs = list(preorder(case["tree"]))
     bmap = {e["key"]: e for e in (case["builtins"] or [])}
     out = []
-    for i, rf in enumerate(case["refs"]):
+    for rf in case["refs"]:
         cands = [p for p, o in objs if isinstance(o["name"], str) and o["name"] == rf["name"] and conforms(R, o["cls"], rf["target"])]
         if len(cands) == 1:
-            out.append("/" + "/".join(map(str, cands[0])))
+            out.append(("ok", "/" + "/".join(map(str, cands[0]))))
         elif len(cands) > 1:
-            return {"err": "notunique", "index": i, "name": rf["name"], "target": rf["target"]}
+            out.append(("notunique",))
         else:
             b = bmap.get(rf["name"])
             if b is not None and conforms(R, b["cls"] if b["kind"] in ("same", "foreign") else None, rf["target"]):
-                out.append("b:" + rf["name"])
+                out.append(("ok", "b:" + rf["name"]))
             else:
-                return {"err": "unknown", "index": i, "name": rf["name"], "target": rf["target"]}
+                out.append(("unknown",))
+    return out
+
+
+def expected(case):
+    """load-level view (references are resolved in textual order): all targets, or the first failing reference"""
+    out = []
+    for i, v in enumerate(verdicts(case)):
+        if v[0] != "ok":
+            rf = case["refs"][i]
+            return {"err": v[0], "index": i, "name": rf["name"], "target": rf["target"]}
+        out.append(v[1])
     return {"ok": out}
 
 
@@ -453,33 +465,50 @@ def adopt_metamodel_table(case, o):
 
 
 def oracle(case, o):
-    """the property, stated directly on the implementation's outcome; returns None or a description"""
-    want = expected(case)
+    """the property, stated directly on the implementation's outcome; returns None or a description.
+    When several references fail the property does not say whose error is reported: the error must be the
+    documented failure of one of them, located at that reference."""
     if "harness" in o:
         return None
-    if "ok" in want:
+    vs = verdicts(case)
+    failing = [i for i, v in enumerate(vs) if v[0] != "ok"]
+    if not failing:
+        want = [v[1] for v in vs]
         if "ok" not in o:
             return "every reference has a unique conforming object or a conforming builtin, but loading failed: %s" % json.dumps(o.get("err"))
-        if o["ok"] != want["ok"]:
-            k = next((i for i, (a, b) in enumerate(zip(o["ok"], want["ok"])) if a != b), min(len(o["ok"]), len(want["ok"])))
+        if o["ok"] != want:
+            k = next((i for i, (a, b) in enumerate(zip(o["ok"], want)) if a != b), min(len(o["ok"]), len(want)))
             return "reference #%d resolved to %s, the property demands %s" % (k, o["ok"][k] if k < len(o["ok"]) else "<missing>",
-                                                                             want["ok"][k] if k < len(want["ok"]) else "<none>")
+                                                                             want[k] if k < len(want) else "<none>")
         return None
-    rf = case["refs"][want["index"]]
+    first = failing[0]
+    rf = case["refs"][first]
     if "err" not in o:
-        return "reference #%d (%s of class %s) must fail with '%s', but the model loaded" % (want["index"], rf["name"], rf["target"], want["err"])
+        return "reference #%d (%s of class %s) must fail with '%s', but the model loaded" % (first, rf["name"], rf["target"], vs[first][0])
     e = o["err"]
     if e["cls"] != "TextXSemanticError":
-        return "reference #%d must fail with a TextXSemanticError (%s), got %s: %s" % (want["index"], want["err"], e["cls"], e["message"])
-    if want["err"] == "unknown":
-        if e["err_type"] != "Unknown object" or "Unknown object" not in (e["message"] or "") or '"%s"' % rf["name"] not in e["message"]:
-            return "reference #%d must fail with an 'Unknown object' error for \"%s\", got %r (err_type %r)" % (want["index"], rf["name"], e["message"], e["err_type"])
-    else:
-        if "not unique" not in (e["message"] or "") or rf["name"] not in e["message"]:
-            return "reference #%d must fail with a 'not unique' error for %s, got %r" % (want["index"], rf["name"], e["message"])
-    if (e["line"], e["col"]) != (rf["line"], rf["col"]):
-        return "the error is reported at %s:%s, the failing reference #%d is at %s:%s" % (e["line"], e["col"], want["index"], rf["line"], rf["col"])
-    return None
+        return "reference #%d must fail with a TextXSemanticError (%s), got %s: %s" % (first, vs[first][0], e["cls"], e["message"])
+    msg = e["message"] or ""
+
+    def documented(i):
+        r = case["refs"][i]
+        if vs[i][0] == "unknown":
+            return e["err_type"] == "Unknown object" and "Unknown object" in msg and '"%s"' % r["name"] in msg
+        return "not unique" in msg and r["name"] in msg
+    if any(documented(i) and (e["line"], e["col"]) == (case["refs"][i]["line"], case["refs"][i]["col"]) for i in failing):
+        return None
+    at = next((i for i, r in enumerate(case["refs"]) if (r["line"], r["col"]) == (e["line"], e["col"])), None)
+    if at is None:
+        who = next((i for i in failing if documented(i)), None)
+        if who is not None:
+            return "the error is reported at %s:%s, the failing reference #%d is at %s:%s" % (e["line"], e["col"], who, case["refs"][who]["line"], case["refs"][who]["col"])
+        return "the error %r at %s:%s is not the failure of any reference (first failing: #%d %s, '%s')" % (msg, e["line"], e["col"], first, rf["name"], vs[first][0])
+    r = case["refs"][at]
+    if vs[at][0] == "ok":
+        return "the error %r is reported for reference #%d (%s of class %s), which the property resolves to %s" % (msg, at, r["name"], r["target"], vs[at][1])
+    if vs[at][0] == "unknown":
+        return "reference #%d must fail with an 'Unknown object' error for \"%s\", got %r (err_type %r)" % (at, r["name"], msg, e["err_type"])
+    return "reference #%d must fail with a 'not unique' error for %s, got %r" % (at, r["name"], msg)
 
 
 def case_key(case):
